@@ -94,6 +94,24 @@ func vString(vary bool, maxLen int) string {
 	return string(q) + string(b) + string(q)
 }
 
+// vPathValue is the import path literal go/parser reports for the source
+// text lit: the text itself, except that the Go scanner discards carriage
+// returns from raw string literals.
+func vPathValue(lit string) string {
+	if lit[0] != '`' {
+		return lit
+	}
+	var out []byte
+	for i := 0; i < len(lit); i++ {
+		if lit[i] != '\r' {
+			out = append(out, lit[i])
+		} else {
+			rt.Reach("carriage-return-in-raw-string")
+		}
+	}
+	return string(out)
+}
+
 type vGen struct {
 	buf     bytes.Buffer
 	slot    int
@@ -136,7 +154,7 @@ func (g *vGen) spec(afterKw bool) {
 		g.slot++
 	}
 	s := vString(g.varyStr, g.strLen)
-	g.imports = append(g.imports, s)
+	g.imports = append(g.imports, vPathValue(s))
 	g.buf.WriteString(s)
 }
 
@@ -367,13 +385,12 @@ func VerifC18NewlineInString() {
 	rest := "var x = 1\n"
 	if rt.Bool() {
 		// raw string: valid (a carriage return inside a raw string is
-		// left aside: go/scanner drops it from the literal's value)
-		rt.Assume(form != 3)
+		// not part of the literal's value)
 		lit := "`" + body + "`"
 		src := []byte(pre + lit + post + rest)
-		want := []string{lit}
+		want := []string{vPathValue(lit)}
 		if strings.Contains(pre, "\"c\"") {
-			want = []string{"\"c\"", lit}
+			want = []string{"\"c\"", vPathValue(lit)}
 		}
 		rt.Reach("newline-in-raw-string")
 		vCheckFile(src, false, want, len(src)-len(rest)-1, len(src)-len(rest))
